@@ -344,6 +344,22 @@ def tails(e):
         return tails(e["then"]) + (tails(e["else"]) if e.get("else") is not None else [])
     if k == "match":
         return [t for a in e["arms"] for t in tails(a["body"])]
+    if k == "loop":
+        # the value of a `loop` is what its own `break <value>` statements carry (breaks of nested loops excluded)
+        out = []
+        stack = [e["body"]]
+        while stack:
+            x = stack.pop()
+            if isinstance(x, dict):
+                if x.get("k") == "break" and x.get("e") is not None:
+                    out += tails(x["e"])
+                    continue
+                if x.get("k") in ("loop", "closure") or (x.get("k") in ("for", "while")):
+                    continue
+                stack.extend(v for v in x.values() if isinstance(v, (dict, list)))
+            elif isinstance(x, list):
+                stack.extend(x)
+        return out or [e]
     return [e]
 
 
@@ -363,6 +379,26 @@ def local_values(body, name):
                     for t in tails(l["init"]):
                         # a component of a non-literal tuple (e.g. of a call's result) is kept as a projection node
                         out.append(t["es"][i] if t.get("k") == "tup" and i < len(t.get("es") or []) else {"k": "tupidx", "i": i, "e": t, "ln": t.get("ln")})
+    # `if let Some(x) = e` / `while let Ok(x) = e`: x is the payload of e's Some(..) / Ok(..) values
+    for l in find(body, "letx"):
+        p = l["pat"]
+        if p.get("k") == "ts" and len(p.get("subs") or []) == 1 and p["subs"][0].get("k") == "bind" and p["subs"][0].get("name") == name and \
+                str((p.get("res") or {}).get("def") or "").endswith(("Option::Some", "Result::Ok")):
+            seen_ = set()
+
+            def payloads(e_, depth=0):
+                res_ = []
+                for t in tails(e_):
+                    t = strip(t)
+                    if t.get("k") == "call" and str(t.get("fn") or "").endswith(("Option::Some", "Result::Ok")) and t.get("args"):
+                        res_ += tails(t["args"][0])
+                    elif t.get("k") == "path" and "local" in t["res"] and depth < 3 and t["res"]["local"] not in seen_ and t["res"]["local"] != name:
+                        seen_.add(t["res"]["local"])
+                        for v_ in local_values(body, t["res"]["local"]):
+                            if v_ is not None:
+                                res_ += payloads(v_, depth + 1)
+                return res_
+            out += payloads(l["init"])
     for a in find(body, "assign"):
         l_ = strip(a["l"])
         if l_.get("k") == "path" and l_["res"].get("local") == name:
